@@ -652,6 +652,13 @@ func ClauseOptions(yield func(name string, s S)) {
 	s = base()
 	s.GroupBy = []X{GroupingSets([][]X{{Col("c1")}, {Col("c1"), Col("c2")}, {}})}
 	yield("grouping-sets", s.Build())
+	// the empty set first and in the middle
+	s = base()
+	s.GroupBy = []X{GroupingSets([][]X{{}, {Col("c1")}, {Col("c1"), Func("f1", []X{Col("c2")}, FuncOpts{})}})}
+	yield("grouping-sets-empty-first", s.Build())
+	s = base()
+	s.GroupBy = []X{GroupingSets([][]X{{Col("c1")}, {}, {Col("c2"), Col("c3")}})}
+	yield("grouping-sets-empty-middle", s.Build())
 	s = base()
 	s.GroupBy = []X{Col("c3"), Rollup([]X{Col("c1")}), Cube([]X{Col("c2")})}
 	yield("group-by-mixed", s.Build())
